@@ -939,7 +939,7 @@ theorem outcome_terminal (c : Cfg) (s : St) (h : s.cur = .succeeded ∨ s.cur = 
   · intro hr; simp [hr]
 
 theorem passes_returnHandler (c : Cfg) (h : Hist) (s : St) (hp : passes c h (returnHandler c h s) = true)
-    (hs : s.cur ≠ .failed) : returnHandler c h s = s := by
+    (_hs : s.cur ≠ .failed) : returnHandler c h s = s := by
   unfold returnHandler at hp ⊢
   split
   · rename_i hcond
@@ -1388,6 +1388,118 @@ theorem C19_tap1_nothing_before_start (c : Cfg) (d0 : Int) (s0 : St) (ins : List
     · cases h0
   exact run_nothing_before c _ ins s0 0 (Or.inr (by rw [hs]; omega))
 
+/-! schedule: every execution slot reschedules to `t + frequency + d` -/
+
+@[simp] theorem ne_failStage (c : Cfg) (s : St) : (failStage c s).nextExec = s.nextExec := by
+  unfold failStage; split <;> rfl
+@[simp] theorem ne_progress (s : St) : (progress s).nextExec = s.nextExec := by
+  unfold progress; repeat' split
+  all_goals simp [St.raise]
+@[simp] theorem ne_progressIfFinished (s : St) : (progressIfFinished s).nextExec = s.nextExec := by
+  unfold progressIfFinished; split <;> simp
+@[simp] theorem ne_payloadHandler (s : St) : (payloadHandler s).1.nextExec = s.nextExec := by
+  unfold payloadHandler; repeat' split
+  all_goals simp
+@[simp] theorem ne_payloadContinue (s : St) : (payloadContinue s).nextExec = s.nextExec := by
+  unfold payloadContinue; split <;> simp
+@[simp] theorem ne_payloadEnter (c : Cfg) (i : In) (s : St) : (payloadEnter c i s).nextExec = s.nextExec := by
+  unfold payloadEnter; repeat' split
+  all_goals simp
+@[simp] theorem ne_payload (c : Cfg) (i : In) (s : St) : (payload c i s).nextExec = s.nextExec := by
+  unfold payload; split <;> simp
+@[simp] theorem ne_c2c (c : Cfg) (i : In) (s : St) : (c2c c i s).nextExec = s.nextExec := by
+  unfold c2c; repeat' split
+  all_goals simp
+@[simp] theorem ne_updateNextScanTarget (c : Cfg) (i : In) (e : Bool) (s : St) :
+    (updateNextScanTarget c i e s).nextExec = s.nextExec := by
+  unfold updateNextScanTarget; repeat' split
+  all_goals simp
+@[simp] theorem ne_scanResponseHandler (c : Cfg) (i : In) (r : Resp) (s : St) :
+    (scanResponseHandler c i r s).nextExec = s.nextExec := by
+  unfold scanResponseHandler; repeat' split
+  all_goals simp
+@[simp] theorem ne_scanMark (p : Hist) (s : St) : (scanMark p s).nextExec = s.nextExec := by
+  unfold scanMark; split <;> simp
+@[simp] theorem ne_scanAbsorb (c : Cfg) (i : In) (p : Hist) (s : St) : (scanAbsorb c i p s).nextExec = s.nextExec := by
+  unfold scanAbsorb; split <;> simp
+@[simp] theorem ne_scanLogic (s : St) : (scanLogic s).1.nextExec = s.nextExec := by
+  unfold scanLogic; repeat' split
+  all_goals simp
+@[simp] theorem ne_scanAction (ty : ScanType) (s : St) : (scanAction ty s).nextExec = s.nextExec := by
+  unfold scanAction; split <;> simp
+@[simp] theorem ne_scanProgress (s : St) : (scanProgress s).1.nextExec = s.nextExec := by
+  unfold scanProgress; repeat' split
+  all_goals simp
+@[simp] theorem ne_scanDecide (c : Cfg) (s : St) : (scanDecide c s).1.nextExec = s.nextExec := by
+  unfold scanDecide; split <;> simp
+@[simp] theorem ne_scanHandler (c : Cfg) (i : In) (s : St) : (scanHandler c i s).1.nextExec = s.nextExec := by
+  unfold scanHandler; repeat' split
+  all_goals simp [St.raise]
+@[simp] theorem ne_propagatePrep (s : St) : (propagatePrep s).nextExec = s.nextExec := by
+  unfold propagatePrep propagateReset; split <;> simp
+@[simp] theorem ne_propagateFirstScan (s : St) : (propagateFirstScan s).nextExec = s.nextExec := by
+  simp [propagateFirstScan]
+@[simp] theorem ne_propagate (c : Cfg) (i : In) (s : St) : (propagate c i s).nextExec = s.nextExec := by
+  unfold propagate; repeat' split
+  all_goals simp
+@[simp] theorem ne_activate (s : St) : (activate s).nextExec = s.nextExec := by
+  unfold activate; split <;> simp
+@[simp] theorem ne_install (s : St) : (install s).nextExec = s.nextExec := by
+  unfold install; split <;> simp
+@[simp] theorem ne_downloadAct (s : St) : (downloadAct s).nextExec = s.nextExec := by
+  unfold downloadAct; repeat' split
+  all_goals simp
+@[simp] theorem ne_download (s : St) : (download s).nextExec = s.nextExec := by
+  unfold download; split <;> simp
+@[simp] theorem ne_tapStart (s : St) : (tapStart s).nextExec = s.nextExec := by
+  unfold tapStart; repeat' split
+  all_goals simp [St.raise]
+@[simp] theorem ne_bodies (c : Cfg) (i : In) (s : St) : (bodies c i s).nextExec = s.nextExec := by
+  simp [bodies]
+@[simp] theorem ne_outcomeHandler (c : Cfg) (s : St) : (outcomeHandler c s).nextExec = s.nextExec := by
+  unfold outcomeHandler; repeat' split
+  all_goals simp
+
+/-- `_set_next_execution_timestep`, when it does not raise, sets exactly `base + d`; raising needs `variance < 0`. -/
+theorem setNext_next (c : Cfg) (s : St) (b d : Int) :
+    (0 ≤ c.variance → (setNext c s b d).nextExec = b + d ∧ (setNext c s b d).err = s.err) ∧
+    (c.variance < 0 → (setNext c s b d).err = true) := by
+  constructor
+  · intro h; simp [setNext, randintOk, h]
+  · intro h
+    have : ¬ (0 ≤ c.variance) := by omega
+    simp [setNext, St.raise, randintOk, this]
+
+/-- `err` is sticky through the functions that follow the scheduling call. -/
+theorem err_outcomeHandler (c : Cfg) (s : St) : (outcomeHandler c s).err = s.err := by
+  unfold outcomeHandler; repeat' split
+  all_goals simp
+
+/-- **Every execution slot reschedules by `frequency + d`** (TAP001): a call that passes the schedule guard, finds its
+look-back history item, and does not raise leaves `next_execution_timestep = t + frequency + d` where `d` is the
+step's last `randint(-variance, variance)` draw (`d1`, or `d2` on the repeat-previous-action branch).  With
+`|d| ≤ variance` the next slot is therefore the first timestep `≥ t + frequency − variance`, and no later than
+`t + max 1 (frequency + variance)`. -/
+theorem C19_tap1_reschedules (c : Cfg) (s : St) (t : Int) (i : In) (h : Hist)
+    (hex : executes s t = true) (hh : pyIndex s.hist s.curT = some h) (hv : 0 ≤ c.variance) :
+    (getAction c s t i).1.nextExec = t + c.frequency + i.d1 ∨
+    (getAction c s t i).1.nextExec = t + c.frequency + i.d2 := by
+  unfold getAction
+  rw [if_neg (by simp [hex])]
+  simp only [hh]
+  split
+  · left
+    unfold mainPath
+    simp only [ne_bodies, ne_outcomeHandler]
+    exact ((setNext_next c _ (t + c.frequency) i.d1).1 hv).1
+  · right
+    unfold failPath
+    exact ((setNext_next c _ (t + c.frequency) i.d2).1 hv).1
+
+/-- A negative variance makes every execution slot raise (`randint` on an empty range) — the agent never acts. -/
+theorem C19_tap1_negative_variance_raises (c : Cfg) (d0 : Int) (h : c.variance < 0) : init c d0 = none := by
+  simp [init, randintOk]; omega
+
 end Tap1
 
 /-! ## 6. TAP003: the same skeleton (InsiderKillChain) -/
@@ -1648,7 +1760,7 @@ theorem outcome_terminal (c : Cfg) (s : St) (h : s.cur = .succeeded ∨ s.cur = 
   · intro hr; simp [hr]
 
 theorem passes_returnHandler (c : Cfg) (h : Hist) (s : St) (hp : passes h (returnHandler c h s) = true)
-    (hs : s.cur ≠ .failed) : returnHandler c h s = s := by
+    (_hs : s.cur ≠ .failed) : returnHandler c h s = s := by
   unfold returnHandler at hp ⊢
   split
   · rename_i hcond
@@ -1980,6 +2092,69 @@ theorem C19_tap3_nothing_before_start (c : Cfg) (d0 : Int) (s0 : St) (ins : List
     · cases h0; rfl
     · cases h0
   exact run_nothing_before c _ ins s0 0 (Or.inr (by rw [hs]; omega))
+
+/-! schedule: every execution slot reschedules to `t + frequency + d1` -/
+
+@[simp] theorem ne_failStage (c : Cfg) (s : St) : (failStage c s).nextExec = s.nextExec := by
+  unfold failStage; split <;> rfl
+@[simp] theorem ne_progress (s : St) : (progress s).nextExec = s.nextExec := by
+  unfold progress; repeat' split
+  all_goals simp [St.raise]
+@[simp] theorem ne_manipBegin (s : St) : (manipBegin s).nextExec = s.nextExec := by
+  unfold manipBegin; split <;> simp
+@[simp] theorem ne_manipAct (c : Cfg) (s : St) : (manipAct c s).nextExec = s.nextExec := by
+  unfold manipAct; repeat' split
+  all_goals simp [St.raise]
+@[simp] theorem ne_manipFinish (s : St) : (manipFinish s).nextExec = s.nextExec := by
+  unfold manipFinish; split <;> simp
+@[simp] theorem ne_manipulation (c : Cfg) (i : In) (s : St) : (manipulation c i s).nextExec = s.nextExec := by
+  unfold manipulation; repeat' split
+  all_goals simp
+@[simp] theorem ne_exploitAct (r : Nat) (s : St) : (exploitAct r s).nextExec = s.nextExec := by
+  unfold exploitAct; split <;> simp
+@[simp] theorem ne_exploitFinish (s : St) : (exploitFinish s).nextExec = s.nextExec := by
+  unfold exploitFinish; split <;> simp
+@[simp] theorem ne_exploit (c : Cfg) (s : St) : (exploit c s).nextExec = s.nextExec := by
+  unfold exploit; repeat' split
+  all_goals simp [St.raise]
+@[simp] theorem ne_access (c : Cfg) (i : In) (s : St) : (access c i s).nextExec = s.nextExec := by
+  unfold access; repeat' split
+  all_goals simp
+@[simp] theorem ne_planning (c : Cfg) (i : In) (s : St) : (planning c i s).nextExec = s.nextExec := by
+  unfold planning; repeat' split
+  all_goals simp
+@[simp] theorem ne_reconnaissance (s : St) : (reconnaissance s).nextExec = s.nextExec := by
+  unfold reconnaissance; split <;> simp
+@[simp] theorem ne_tapStart (s : St) : (tapStart s).nextExec = s.nextExec := by
+  unfold tapStart; repeat' split
+  all_goals simp [St.raise]
+@[simp] theorem ne_bodies (c : Cfg) (i : In) (s : St) : (bodies c i s).nextExec = s.nextExec := by
+  simp [bodies]
+@[simp] theorem ne_outcomeHandler (c : Cfg) (s : St) : (outcomeHandler c s).nextExec = s.nextExec := by
+  unfold outcomeHandler; repeat' split
+  all_goals simp
+
+theorem setNext_next (c : Cfg) (s : St) (b d : Int) (h : 0 ≤ c.variance) : (setNext c s b d).nextExec = b + d := by
+  simp [setNext, randintOk, h]
+
+/-- **Every execution slot reschedules by `frequency + d1`** (TAP003). -/
+theorem C19_tap3_reschedules (c : Cfg) (s : St) (t : Int) (i : In) (h : Hist)
+    (hex : executes s t = true) (hh : pyIndex (preGuardHandlers c s).hist (preGuardHandlers c s).curT = some h)
+    (hv : 0 ≤ c.variance) :
+    (getAction c s t i).1.nextExec = t + c.frequency + i.d1 := by
+  have hp := preGuard_fields c s
+  have hex' : executes (preGuardHandlers c s) t = true := by
+    simp only [executes, hp.2.2.1, hp.2.2.2] at hex ⊢; exact hex
+  unfold getAction getActionCore
+  rw [if_neg (by simp [hex'])]
+  simp only [hh]
+  split
+  · unfold mainPath
+    simp only [ne_bodies, ne_outcomeHandler]
+    exact setNext_next c _ (t + c.frequency) i.d1 hv
+  · unfold failPath
+    simp only [ne_outcomeHandler]
+    exact setNext_next c _ (t + c.frequency) i.d1 hv
 
 end Tap3
 
